@@ -19,6 +19,8 @@ STATE_FILES = re.compile(r"(job_status\.json|job_status_version\.txt|processed_r
 class ResubSim(Sim):
     def viol(self, prop, key, text):
         Sim.viol(self, prop, key, text)
+        if prop == "C10" and key == "foreign-demote" and "resubmit-jobs" in text.split("cleared")[0]:
+            Sim.viol(self, "C13", "refusal-disturbed-role", "resubmit-jobs that was never promoted: " + text)
         if prop == "C02" and key == "started-before-blocker" and self.epoch > 0 and not self.scen.get("c11"):
             # "each once and in dependency order" is part of C13's own statement
             Sim.viol(self, "C13", "rerun-out-of-dependency-order", "in a resubmission: " + text)
@@ -60,11 +62,8 @@ class ResubSim(Sim):
                 lock = os.path.join(self.out, "cluster_config.json.lock")
                 if os.path.exists(lock) and not any(True for _ in self.actors):
                     self.viol("C13", "refusal-left-lock", f"refused resubmit-jobs ({tag}, exit {rc}) left the cluster lock marker behind")
-                snap = er if tag == "userresub_early" else getattr(self, "idle_snap", None)
-                if snap and o:
-                    h0 = snap.get("holder")
-                    if h0 and any(b.pid == h0[0] for b in self.actors.values()) and o["submitter"] != snap["obs"]["submitter"] and self.holder is None:
-                        self.viol("C13", "refusal-disturbed-role", f"refused resubmit-jobs on {snap.get('host')} cleared the submitter role of live process {h0[0]}@{h0[1]}")
+                # (the role of another process: decided by the role monitor, which attributes every change of the submitter field to
+                #  the process that released the cluster lock - see viol() below)
                 self.refusals_checked = getattr(self, "refusals_checked", 0) + 1
 
     def on_idle(self):
